@@ -178,7 +178,7 @@ pub struct Property {
     pub assumptions: &'static [&'static str],
     pub subs: Vec<Sub>,
     /// non-generated extra step (e.g. the C06 feature power set builds)
-    pub extra: Option<fn(Tier, u64) -> ExtraOutcome>,
+    pub extras: Vec<fn(Tier, u64) -> ExtraOutcome>,
 }
 
 // ------------------------------------------------------------------------------------------------
@@ -412,6 +412,11 @@ fn run_stream(prop: &Property, sub: &Sub, tier: Tier, seed: u64, w: usize, slot:
         Tier::Quick => sub.quick,
         Tier::Thorough => sub.thorough,
     };
+    // VERIF_SCALE (a factor, e.g. 0.01) scales the case counts; for trying things out, not for registered commands
+    let total = match std::env::var("VERIF_SCALE").ok().and_then(|v| v.parse::<f64>().ok()) {
+        Some(f) if f > 0.0 => ((total as f64 * f) as u64).max(STREAMS as u64),
+        _ => total,
+    };
     let per = total / STREAMS as u64 + if (w as u64) < total % STREAMS as u64 { 1 } else { 0 };
     if per == 0 {
         let _ = body;
@@ -558,7 +563,7 @@ pub fn replay(prop: &Property, cf: &CaseFile, verbose: bool) -> Result<(), Strin
         Some(s) => s,
         None => {
             // a failure of the non-generated extra step: re-run that step
-            if let Some(extra) = prop.extra {
+            for extra in &prop.extras {
                 let e = extra(Tier::Quick, 0);
                 if e.name == cf.subcheck {
                     return match e.failure {
@@ -890,8 +895,13 @@ pub fn run_property(prop: &Property, tier: Tier, seed: u64) -> RunOutcome {
 
     // extra (non-generated) step
     if inconclusive.is_none() && !skipped_after_hang {
-        if let Some(extra) = prop.extra {
+        for extra in &prop.extras {
             let e = extra(tier, seed);
+            if e.evaluations == 0 && e.failure.is_none() && e.inconclusive.is_none() {
+                // the step does not apply to this tier
+                sub_reports.push(json!({"subcheck": e.name, "evaluations": 0, "detail": e.detail}));
+                continue;
+            }
             total_evals += e.evaluations;
             total_nontrivial += e.nontrivial;
             for s in e.samples {
@@ -902,9 +912,15 @@ pub fn run_property(prop: &Property, tier: Tier, seed: u64) -> RunOutcome {
             sub_reports.push(json!({"subcheck": e.name, "evaluations": e.evaluations, "distinct_nontrivial": e.nontrivial, "detail": e.detail}));
             if let Some((msg, payload)) = e.failure {
                 let _ = std::fs::create_dir_all(&out_dir);
-                let p = out_dir.join(format!("{}.case", e.name));
-                let v = json!({"property": prop.id, "subcheck": e.name, "case_hex": "", "message": msg, "extra": payload});
-                let _ = std::fs::write(&p, serde_json::to_string_pretty(&v).unwrap());
+                let p = match payload.get("replay_file").and_then(|x| x.as_str()) {
+                    Some(f) => PathBuf::from(f),
+                    None => {
+                        let p = out_dir.join(format!("{}.case", e.name));
+                        let v = json!({"property": prop.id, "subcheck": e.name, "case_hex": "", "message": msg, "extra": payload});
+                        let _ = std::fs::write(&p, serde_json::to_string_pretty(&v).unwrap());
+                        p
+                    }
+                };
                 println!("VIOLATION property={} replay={}", prop.id, p.display());
                 println!("  subcheck={} : {}", e.name, msg);
                 violations.push((e.name.to_string(), p, msg));
